@@ -10,7 +10,7 @@
   No arithmetic is involved anywhere: tensors are (shape, flat data) and are only moved.
 -/
 import OQuPyVerif.Generated.FileFlags
-import OQuPyVerif.Lemmas.PTFileArray
+import OQuPyVerif.Lemmas.PTFileMeta
 
 namespace OQuPyVerif.Props.C16
 open OQuPyVerif.PTFile OQuPyVerif.Generated.FileFlags
@@ -168,6 +168,40 @@ theorem pttempo_choice :
     flags.exportMode false = "write" ∧ flags.exportMode true = "overwrite" := by
   decide
 
+/-! ### metadata -/
+
+/-- the property setters of `FileProcessTensor` write the attribute they are named after,
+    from the private attribute they have just assigned -/
+theorem setters_sound :
+    SetterOK flags.nameSetter .name .name ∧ SetterOK flags.descrSetter .description .description :=
+  ⟨⟨rfl, rfl, rfl, rfl⟩, ⟨rfl, rfl, rfl, rfl⟩⟩
+
+/-- **Name / description assigned after creation.**  For a file-backed process tensor in a
+    writing mode, any interleaving of tensor writes and assignments `pt.name = …`,
+    `pt.description = …` (also `None`), then `close()`: the file imports without warning as an
+    object whose name, description, dimension, dt and transforms are those of the live object,
+    i.e. the last values assigned — the same as an in-memory process tensor given the same
+    assignments. -/
+theorem meta_set_after_creation (env : Env) (d0 : Disk) (m : Meta)
+    (hti : ∀ t, m.tin = some t → isHdf5None t = false)
+    (hto : ∀ t, m.tout = some t → isHdf5None t = false)
+    (cmds : List MCmd) (mode : String) (hmode : mode = "write" ∨ mode = "overwrite")
+    (st : W × Meta) (hrun : writerM flags env d0 mode m cmds true = .ok st) :
+    st.2 = cmds.foldl (metaCmd flags) m ∧
+    ∃ c, st.1.d = .file c ∧ importFile flags st.1.d = .ok (⟨st.2, c⟩, false) := by
+  rcases hmode with rfl | rfl
+  · exact meta_roundtrip_generic hypsWrite setters_sound.1 setters_sound.2 rfl rfl rfl rfl
+      env d0 m hti hto cmds st hrun
+  · exact meta_roundtrip_generic hypsOverwrite setters_sound.1 setters_sound.2 rfl rfl rfl rfl
+      env d0 m hti hto cmds st hrun
+
+/-- **PT-TEMPO hands the same metadata to both representations**: the expressions building
+    `transform_in` / `transform_out` (and the condition under which they are built), and every
+    other constructor argument, are the same in `_init_simple_process_tensor` and
+    `_init_file_process_tensor`. -/
+theorem pttempo_same_metadata : flags.ptTempoFileInit = flags.ptTempoSimpleInit := by
+  decide
+
 /-! ### non-vacuity -/
 
 def m0 : Meta := ⟨2, some (mkRat 1 10), none, none, "pt", "d"⟩
@@ -192,6 +226,11 @@ example : GoodCmds (ptTempoCmds [some t0, some t0] [some cap0, some cap0, some c
   simp [ptTempoCmds, enumCmds] at h
   rcases h with h | h | h | h | h <;> subst h <;>
     first | exact ⟨t0, rfl, by decide, by decide⟩ | exact ⟨cap0, rfl, by decide, by decide⟩
+
+/-- a writer whose description is assigned after creation, between tensor writes -/
+example : ∃ st, writerM flags ⟨"0.5.0"⟩ .missing "write" m0
+    [.tensor (.setMpo 0 (some t0)), .setDescription (some "later"), .setName none] true = .ok st ∧
+    st.2.description = "later" ∧ st.2.name = "__unnamed__" := ⟨_, rfl, rfl, rfl⟩
 
 example : lastSet .mpo 0 (ptTempoCmds [some t0, some t0] [some cap0, some cap0, some cap0]) =
     some (some t0) := by decide
